@@ -462,6 +462,15 @@ def c11_nested_setup(col, rng, k, jobref=None):
         def outer_fn(x):
             r = inner_node(x)
             return g_(r)
+    elif rng.random() < 0.4:
+        # the nested call carries a RUN-TIME activation flag (truthy in every execution here): the inner DAG's setup node is
+        # still a setup node of the outer DAG - it runs once
+        rp["scenario"] = "nested_setup_under_a_run_time_flag"
+        col.counters["c11_nested_setup_under_a_flag"] += 1
+
+        def outer_fn(x, flag=1):
+            r = inner(x, twz_active=flag)
+            return g_(r)
     else:
         def outer_fn(x):
             r = inner(x)
